@@ -30,7 +30,7 @@ def run(ctx):
             ctx.requires("C09.G.snake-case-only-for-enums", f, blk, "RenameRule::SnakeCase", [r"discr\(a1\.data\)=Enum$"])
         dfl = [blk for blk, t in ctx.find_calls(f, r"^<ident_case::RenameRule as core::default::Default>::default$")]
         for blk in dfl:
-            ctx.requires("C09.G.default-rule-otherwise", f, blk, "RenameRule::default()", [r"discr\(a1\.data\)=\('not-in', \('Enum',\)\)"])
+            ctx.requires("C09.G.default-rule-otherwise", f, blk, "RenameRule::default()", [("ne", r"^discr\(a1\.data\)$", "Enum")])
         ctx.ob("C09.G.default-rule-otherwise", f.key, "default rule for non-enums", len(dfl) == 1, "%d default() calls" % len(dfl))
     f = ctx.fn("darling_core::options::input_variant::InputVariant::with_inherited")
     if f:
@@ -157,7 +157,11 @@ def run(ctx):
         ctx.ob("C09.H.enum-template", f.key, "enum fn-body template", en is not None, "template emitted under data = Enum")
         if en is not None:
             txt = T.text(en)
-            ok = bool(re.search(r"match __outer \. len \( \) \{ 0 => :: darling :: export :: Err \( :: darling :: Error :: too_few_items \( 1 \) \) , 1 => \{ .* \} _ => :: darling :: export :: Err \( :: darling :: Error :: too_many_items \( 1 \) \) , \}", txt))
+            # `match __outer.len() { 0, 1, _ }` or slice patterns `[]`, `[one]`, `_` (the derived
+            # instances are checked on their MIR by the C09.B rules either way)
+            A1 = r"match __outer \. len \( \) \{ 0 => :: darling :: export :: Err \( :: darling :: Error :: too_few_items \( 1 \) \) , 1 => .* _ => :: darling :: export :: Err \( :: darling :: Error :: too_many_items \( 1 \) \) , \}"
+            A2 = r"match \*? ?__outer \{ \[ \] => :: darling :: export :: Err \( :: darling :: Error :: too_few_items \( 1 \) \) , \[ .*? \] => .* _ => :: darling :: export :: Err \( :: darling :: Error :: too_many_items \( 1 \) \) ,? \}"
+            ok = bool(re.search(A1, txt)) or bool(re.search(A2, txt))
             ctx.ob("C09.H.arity-match", f.key, "0 => too_few_items(1), 1 => dispatch, _ => too_many_items(1)", ok, txt[:400])
             ok = bool(re.search(r"match :: darling :: util :: path_to_string \( __nested \. path \( \) \) \. as_ref \( \) \{ ⟨quote::__private::RepInterp<darling_core::codegen::variant::DataMatchArm<'_>>⟩ __other => :: darling :: export :: Err \(", txt))
             ctx.ob("C09.H.dispatch-on-variant-name", f.key, "match path_to_string(__nested.path()) { #(#data_variants)* __other => Err }", ok, "dispatch")
@@ -195,14 +199,14 @@ def run(ctx):
         ctx.requires("C09.B.many-items", b, many[0][0], "too_many_items", [("ne", r"^len\(a1\)$", 0), ("ne", r"^len\(a1\)$", 1)])
         ctx.ob("C09.B.arity-constants", b.key, "min/max = 1", ctx.expr(b, few[0][1]["args"][0]) == "1_usize" and ctx.expr(b, many[0][1]["args"][0]) == "1_usize", "%s / %s" % (ctx.expr(b, few[0][1]["args"][0]), ctx.expr(b, many[0][1]["args"][0])))
         for blk, c, sw, tt, ft, lhs in D.name_tests:
-            if "path_to_string" in lhs and "a1[]" in lhs:
+            if "path_to_string" in lhs and re.search(r"a1\[0?\]", lhs):
                 ctx.requires("C09.B.dispatch-under-one-item", b, blk, "variant name test %r" % c, [r"^len\(a1\)=1$"])
         # unit variants: Ok(Enum::V) directly under a name test requires Meta::Path
         for blk, st in D.ok_blocks:
             e = D.expr(st["r"]["ops"][0])
             if re.match(r"^[\w:<>, ]+\{\}$", e) and not e.startswith("core::"):
                 conds = D.conds(blk)
-                ok = bool(conds) and all(any(re.search(r"^discr\(\(a1\[\] as Meta\)\.0\)=Path$", a) for a in d) for d in conds)
+                ok = bool(conds) and all(any(re.search(r"^discr\(\(a1\[0?\] as Meta\)\.0\)=Path$", a) for a in d) for d in conds)
                 ctx.ob("C09.B.unit-variant-needs-path", b.key, "Ok(%s)" % e, ok, "unit variant result must be guarded by Meta::Path")
     ctx.floor("C09.B", "derived enum from_list fns", n_enum, 12)
     if ctx.tier == "thorough":
